@@ -460,6 +460,10 @@ class Engine(object):
         self._known_seen = set()
         self.known = []          # known-finding entries for this property/config
         self.max_cex = None
+        self.deadline = None
+        self.t_start = time.time()
+        self.max_failures = 300
+        self.stopped_on_failures = False
         self.slow_budget_s = 600.0
         self.slow_spent = 0.0
         self.seed = seed
@@ -934,6 +938,13 @@ class Engine(object):
                 self.truncated = True
                 break
             if self.max_cex is not None and len(self.cex) >= self.max_cex:
+                break
+            if self.deadline is not None and time.time() > self.deadline:
+                self.truncated = True      # reported as inconclusive unless a counterexample was found
+                break
+            nf = self.failed_obligations + self.exceptions
+            if nf >= self.max_failures or (nf >= 10 and time.time() - self.t_start > 120):
+                self.stopped_on_failures = True     # the verdict of this job is established
                 break
             pfx, nf = self.work.pop()
             self._reset_path()
